@@ -19,11 +19,14 @@ def jobs(tier):
             d = {'NDEBUG': None} if nd else {}
             tag = 'k%d%s' % (k, '' if nd else '.asserts')
             J.append(Job('decode_get.' + tag, H, 'h_decode_get', enforce='reduce_decode_get',
-                         replace=['mir_hash_strict'], defines=d, anns=ANN, ops=cap(k), unwind=24, timeout=900,
+                         replace=['mir_hash_strict', '_reduce_str2hash'], defines=d, anns=ANN, ops=cap(k), unwind=24, timeout=900,
                          solver='cadical', object_bits=10,
-                         pre_unwind=['_reduce_uint_read.0:6', '_reduce_uint_read.1:6', '_reduce_str2hash.0:9',
-                                     'vp_reader.0:9']))
+                         pre_unwind=['_reduce_uint_read.0:6', '_reduce_uint_read.1:6', 'vp_reader.0:9']))
             J.append(Job('uint_read.' + tag, H, 'h_uint_read', enforce='_reduce_uint_read', defines=d, ops=cap(k),
+                         unwind=10, solver='cadical'))
+            J.append(Job('output_byte.' + tag, H, 'h_output_byte', enforce='_reduce_output_byte', defines=d, ops=cap(k),
+                         unwind=10, solver='cadical'))
+            J.append(Job('symb_flush.' + tag, H, 'h_symb_flush', enforce='_reduce_symb_flush', defines=d, ops=cap(k),
                          unwind=10, solver='cadical'))
             J.append(Job('decode_finish.' + tag, H, 'h_decode_finish', enforce='reduce_decode_finish', defines=d,
                          ops=cap(k), unwind=10, solver='cadical'))
